@@ -304,6 +304,7 @@ impl World {
             Multi(Addr, Vec<CosmosMsg<XMsg>>, Via),
             Sudo(String, usize, bool),
             Mint(String, Vec<Coin>),
+            Slash(String, u8),
         }
         let (pred_res, call): (Result<Vec<Resp>, ()>, Call) = match &tx.kind {
             TxKind::Exec { via, .. } if concrete.is_some() => {
@@ -333,6 +334,15 @@ impl World {
                     it.st = keep;
                 }
                 (r.map(|r| vec![r]), Call::Mint(a, c))
+            }
+            TxKind::Slash { v, percent } => {
+                let val = it.vref(*v);
+                let p = match percent % 3 {
+                    0 => 0u8,
+                    1 => 100,
+                    _ => 150,
+                };
+                (it.top_slash(&val, p).map(|r| vec![r]), Call::Slash(val, p))
             }
             _ => unreachable!("not a transactional call"),
         };
@@ -374,6 +384,7 @@ impl World {
                 }
             }
             Call::Mint(to, coins) => app.sudo(SudoMsg::Bank(BankSudo::Mint { to_address: to.clone(), amount: coins.clone() })).map(|r| vec![resp_of(&r)]).map_err(|e| e.to_string()),
+            Call::Slash(val, p) => app.sudo(SudoMsg::Staking(cw_multi_test::StakingSudo::Slash { validator: val.clone(), percentage: cosmwasm_std::Decimal::percent(*p as u64) })).map(|r| vec![resp_of(&r)]).map_err(|e| e.to_string()),
         });
         let (trace, _xlog) = take_trace();
         let post_scan = scan(self.app.storage());
@@ -604,7 +615,6 @@ impl TreeCheck {
                         return Ok(());
                     }
                 }
-                TxKind::Slash { .. } => {}
                 TxKind::Queries(qs) => {
                     let d = self.app_queries(&mut w, tx, qs);
                     cx.label("tx:app-queries");
